@@ -10,7 +10,7 @@ LEVEL = {
  "C05": ("differential monitor: reference deciders for substring/prefix/postfix/exact incl. best-bonus leftmost occurrence", "sec 5 C05"),
  "C10": ("catch_unwind totality monitor with overflow checks, slab view-extent hook, long-lived vs fresh matcher differential", "sec 5 C10"),
  "C14": ("reference grammar differential + ASCII/non-ASCII substitution metamorphic monitor + escape round trip + reparse", "sec 5 C14"),
- "C15": ("composition oracle: atom-by-atom evaluation on fresh matchers vs Pattern/Atom/MultiPattern API on a dirtied shared matcher; patterns with a parse history and in-place atom edits, sums beyond u16, long lived copies updated with clone_from", "sec 5 C15, 11.4"),
+ "C15": ("composition oracle: atom-by-atom evaluation on fresh matchers vs Pattern/Atom/MultiPattern API on a dirtied shared matcher; patterns with a parse history and in-place atom edits, sums beyond u16, long lived copies updated with clone_from; the column conjunction as the worker applies it is judged on Nucleo histories with 2-5 columns", "sec 5 C15, 11.4"),
  "C16": ("exhaustive enumeration of all 1,112,064 scalar values against independent Unicode data + coherence probes through every matcher path", "sec 5 C16"),
  "C17": ("differential monitor against unicode-segmentation used directly, all constructors, iterator adaptors and all ranges; long texts with pieces across power-of-two byte offsets", "sec 5 C17, 11.4"),
 }
@@ -38,7 +38,7 @@ TECH = {
  "C16": "runtime monitoring: exhaustive table sweep + probe matches",
  "C17": "runtime monitoring: differential against segmentation library",
 }
-LEVEL["C18"] = ("sorted-permutation / cancellation-report oracle on the par_quicksort facade over adversarial shapes, sizes, thread counts and logical cancellation moments; phase coverage through verif points; Miri + ASan on the raw-pointer code; thread-count determinism through Nucleo", "sec 5 C18")
+LEVEL["C18"] = ("sorted-permutation / cancellation-report oracle on the par_quicksort facade over adversarial shapes, sizes, thread counts and logical cancellation moments; phase coverage through verif points; Miri + ASan on the raw-pointer code; thread-count determinism through Nucleo; every match list published by Nucleo histories (pattern edits during a sort) judged under the worker's total order", "sec 5 C18, 11.4")
 NOTE["C18"] = "trusted: the facade delegates to the private function unchanged; cancellation moments are logical (k-th comparison) or a racing thread; Miri only for slices <= 2000 (no rayon::join)"
 TECH["C18"] = "runtime monitoring: output oracle + sanitizers (Miri, ASan) + phase-coverage hooks"
 PENDING = {}
@@ -83,7 +83,7 @@ def main():
     json.dump(m, open('MANIFEST.json', 'w'), indent=1)
     print(len(checks), "checks,", len(na), "not claimed")
 
-ENGINE = {"C18": "sort_mon"}
+ENGINE = {"C18": "sort_mon+worker_mon"}
 ENGINES = [
  {"name": "sort_mon", "path": "harness/src/bin/sort_mon.rs", "serves_properties": ["C18"], "kind_free_text": "parallel sort monitor (native chk/release, ASan, Miri) with phase hooks"},
  {"name": "matcher_mon", "path": "harness/src/bin/matcher_mon.rs", "serves_properties": ["C01", "C02", "C03", "C04", "C05", "C10", "C14", "C15", "C16", "C17"], "kind_free_text": "native differential/metamorphic monitors over generated inputs (debug-assertion+overflow-check and release builds)"},
@@ -93,10 +93,10 @@ LEVEL.update({
  "C06": ("snapshot consistency checker after every tick of scripted/random/directed histories against a real Nucleo (held writers, cancellations, restarts, publication at the n-th read of the run, update_config, changing reparse settings; debug-assertion and release builds), ASan and Miri on small histories, plus a single threaded layout mode over item types of every alignment", "sec 5 C06, 11.4"),
  "C07": ("quiescence oracle: snapshot vs from-scratch result after random and directed edit/tick/restart histories", "sec 5 C07"),
  "C08": ("recorded histories checked against a sequential append-only model with unique ids: controlled schedules at atomic-operation granularity (coroutine scheduler over verif yield points) + free-running stress (debug-assertion and release builds) + ASan + Miri; item types of every alignment and very large vectors; exhausted index space (refused reservations beyond 2^32, count read inside a refused reservation)", "sec 5 C08, 11.4"),
- "C09": ("race detectors (Miri with many seeds, ThreadSanitizer) on hook-free vector-level and Nucleo-level workloads", "sec 5 C09"),
+ "C09": ("race detectors (Miri with many seeds, ThreadSanitizer) on hook-free vector-level and Nucleo-level workloads (pools of up to 134 threads) and on the directed pause-hook schedules", "sec 5 C09, 11.4"),
  "C11": ("exactly-once drop counters with canaries and early-drop detection on vector-level and Nucleo-level histories (lying and inconsistent iterators, panicking callbacks, pushes issued while unwinding, injectors outliving the matcher); counting global allocator for item types without drop glue; LeakSanitizer/ASan and Miri leak checker", "sec 5 C11, 11.4"),
  "C12": ("stream-tagged payloads: every snapshot after restart must be exactly the retained one or consist solely of new-stream items; directed restart schedules", "sec 5 C12"),
- "C13": ("bounded-progress monitor over an event log: all 9 orderings of the tick/worker hand-over forced with pause hooks, event-loop client with delays, injector visibility clause", "sec 5 C13"),
+ "C13": ("bounded-progress monitor over an event log: all 9 orderings of the tick/worker hand-over forced with pause hooks, event-loop client with delays whose final snapshot must be the finished result, injector clause (visibility, one notification per call, callers on plain / application-pool / global-pool threads), an instance aged by 66 000 runs", "sec 5 C13, 11.4"),
  "C19": ("wrapper oracle around every tick (changed=false => identical snapshot; running=false => completed pushes accounted, current pattern)", "sec 5 C19"),
  "C20": ("exact model comparison of active_injectors() after every step of random handle/restart/tick histories", "sec 5 C20"),
 })
@@ -125,7 +125,7 @@ TECH.update({
 ENGINE.update({"C06": "worker_mon", "C07": "worker_mon", "C08": "boxcar_mon", "C09": "boxcar_mon+worker_mon", "C11": "boxcar_mon+worker_mon", "C12": "worker_mon", "C13": "worker_mon", "C19": "worker_mon", "C20": "worker_mon"})
 ENGINES.extend([
  {"name": "boxcar_mon", "path": "harness/src/bin/boxcar_mon.rs", "serves_properties": ["C08", "C09", "C11"], "kind_free_text": "vector-level monitors on the cfg-gated BoxcarVec facade: controlled scheduler (coroutines over verif yield points), stress, drop accounting, hook-free race shapes (native, ASan, TSan, Miri)"},
- {"name": "worker_mon", "path": "harness/src/bin/worker_mon.rs", "serves_properties": ["C06", "C07", "C09", "C11", "C12", "C13", "C19", "C20"], "kind_free_text": "Nucleo-level monitors: random and directed (pause-hook) histories, event-log checker, exact injector model (native, ASan, TSan, Miri)"},
+ {"name": "worker_mon", "path": "harness/src/bin/worker_mon.rs", "serves_properties": ["C06", "C07", "C09", "C11", "C12", "C13", "C15", "C18", "C19", "C20"], "kind_free_text": "Nucleo-level monitors: random and directed (pause-hook) histories, event-log checker, exact injector model (native, ASan, TSan, Miri)"},
 ])
 
 if __name__ == '__main__':
